@@ -1,5 +1,6 @@
 import Nri.Model.LibMem
 import Nri.Proofs.LibMem
+import Nri.Proofs.LibMemInv
 import Nri.Gen.LibmemFacts
 /-!
 C06 — memory allocator operations are transactional; stale offers are rejected.
@@ -219,6 +220,27 @@ theorem release_ok (s : St) (id : String) (h : (s.Release id).2 = .ok ()) :
 theorem release_unknown (s : St) (id : String) (h : s.req? id = none) :
     s.Release id = (s, .error .unknownRequest) := by
   unfold St.Release; simp [h]
+
+/-! ### re-allocation is transactional; well-formedness is kept by every operation -/
+
+/-- a failed `Realloc` (unknown request, invalid nodes/types, no nodes to expand to, overcommit
+that cannot be resolved) leaves every assignment, the version and the journal as they were. -/
+theorem realloc_fail_unchanged (s : St) (hw : WF s) (id : String) (nodes : Mask) (types : Nat) (e : Err)
+    (h : (s.Realloc id nodes types).2 = .error e) :
+    (s.Realloc id nodes types).1.reqs = s.reqs ∧ (s.Realloc id nodes types).1.version = s.version ∧
+    (s.Realloc id nodes types).1.journal = none :=
+  realloc_spec s hw id nodes types e h
+
+/-- `WF` (no transaction left open, unique request ids) - the hypothesis of every theorem in this
+file - is re-established by every public operation, whatever its outcome and whatever offer
+object `Commit` is handed; so the theorems compose over arbitrary interleavings. -/
+theorem every_operation_keeps_wf (s : St) (hw : WF s) :
+    (∀ r, WF (s.Allocate r).1) ∧ (∀ r, WF (s.GetOffer r).1) ∧ (∀ o, WF (s.Commit o).1) ∧
+    (∀ id nodes types, WF (s.Realloc id nodes types).1) ∧ (∀ id, WF (s.Release id).1) := by
+  refine ⟨allocate_wf s hw, ?_, commit_wf s hw, realloc_wf s hw, release_wf s hw⟩
+  intro r
+  obtain ⟨h1, _, h3⟩ := getOffer_pure s hw r
+  exact ⟨h3, by rw [h1]; exact hw.ids⟩
 
 -- non-vacuity: a concrete 2-node allocator is well-formed and the theorems' hypotheses are met
 def exampleSt : St :=
